@@ -18,6 +18,9 @@ type TaskPlan struct {
 	Clients [][]TOp `json:"clients"`
 	MTLoad  int     `json:"mt_load,omitempty"` // long medium-priority microtasks making time slots scarce
 	Limit   int     `json:"limit"`
+	// Calm: nothing but schedule operations on a few tasks that return at once: an execution may not lag behind its
+	// scheduled time by more than a few execution-wait limits (delay ladder tCalm)
+	Calm bool `json:"calm,omitempty"`
 }
 
 // TSpec describes one task.
@@ -32,16 +35,36 @@ type TSpec struct {
 // TOp is one client operation.
 type TOp struct {
 	Task int    `json:"task"`
-	Op   string `json:"op"` // queue prio asap sched schedzero cancel sleep
+	Op   string `json:"op"` // queue prio asap sched schedzero cancel sleep sleepon sleepoff (module sleep mode)
 	Arg  int    `json:"arg,omitempty"`
 }
 
 var tDur = []time.Duration{0, time.Millisecond, time.Second, 59 * time.Second, 61 * time.Second, 3 * time.Minute}
 var tDelay = []time.Duration{0, time.Second, 30 * time.Second, 2 * time.Minute, 10 * time.Minute}
+var tCalm = []time.Duration{5 * time.Second, time.Minute, 10 * time.Minute, 25 * time.Minute}
 var tSleep = []time.Duration{time.Millisecond, time.Second, 45 * time.Second, 3 * time.Minute}
 
 func genTasks(rng *rand.Rand, tier string) *TaskPlan {
 	p := &TaskPlan{Limit: 2 + rng.IntN(4)}
+	if rng.IntN(10) == 0 {
+		p.Calm = true
+		nt := 2 + rng.IntN(3)
+		for i := 0; i < nt; i++ {
+			p.Tasks = append(p.Tasks, TSpec{MaxDelay: -1, Dur: rng.IntN(2)})
+		}
+		for c, nc := 0, 1+rng.IntN(2); c < nc; c++ {
+			var prog []TOp
+			for i, n := 0, 2+rng.IntN(6); i < n; i++ {
+				if rng.IntN(4) == 0 {
+					prog = append(prog, TOp{Op: "sleep", Arg: rng.IntN(len(tSleep))})
+				} else {
+					prog = append(prog, TOp{Task: rng.IntN(nt), Op: "sched", Arg: rng.IntN(len(tCalm))})
+				}
+			}
+			p.Clients = append(p.Clients, prog)
+		}
+		return p
+	}
 	nt := 1 + rng.IntN(6)
 	longDur := rng.IntN(3) == 0
 	noDelay := rng.IntN(3) == 0
@@ -73,6 +96,9 @@ func genTasks(rng *rand.Rand, tier string) *TaskPlan {
 	if rng.IntN(4) == 0 {
 		ops = []string{"sched", "queue", "sleep", "sched"}
 	}
+	if rng.IntN(6) == 0 {
+		ops = append(ops, "sleepon", "sleepoff", "sched", "sleep")
+	}
 	for c := 0; c < nc; c++ {
 		n := 1 + rng.IntN(7)
 		if tier == "thorough" {
@@ -81,6 +107,10 @@ func genTasks(rng *rand.Rand, tier string) *TaskPlan {
 		var prog []TOp
 		for i := 0; i < n; i++ {
 			op := TOp{Task: rng.IntN(nt), Op: ops[rng.IntN(len(ops))]}
+			if c > 0 && (op.Op == "sleepon" || op.Op == "sleepoff") {
+				// one controller switches the sleep mode (Module.Sleep is not made for concurrent callers)
+				op.Op = "sleep"
+			}
 			switch op.Op {
 			case "sched":
 				op.Arg = rng.IntN(len(tDelay))
@@ -166,8 +196,17 @@ func (s *taskState) do(task int, op string, arg int, inside bool) {
 	case "asap":
 		t.StartASAP()
 	case "sched":
-		r.At = simrt.Now() + tDelay[arg]
-		t.Schedule(time.Now().Add(tDelay[arg]))
+		d := tDelay[arg%len(tDelay)]
+		if s.p.Calm {
+			d = tCalm[arg%len(tCalm)]
+		}
+		r.At = simrt.Now() + d
+		t.Schedule(time.Now().Add(d))
+	case "sleepon":
+		modules.SetSleepMode(true)
+		s.rc.Probe("sleep-mode-on")
+	case "sleepoff":
+		modules.SetSleepMode(false)
 	case "schedzero":
 		t.Schedule(time.Time{})
 	case "cancel":
@@ -273,9 +312,32 @@ func execTasks(p *TaskPlan, rc *simkit.RunCtx) {
 	for range p.Clients {
 		<-done
 	}
+	// the system wakes up for good: whatever came due while it slept is executed now
+	modules.SetSleepMode(false)
 	simrt.AwaitQuiescence(40 * time.Minute)
 	s.quietAt = simrt.Now()
 	_ = modules.Shutdown()
+}
+
+// queueOnlyShort: no task has a schedule entry (max delay 0 everywhere, no schedule operations), nothing was cancelled
+// and no execution took a quarter of the execution-wait limit.
+func queueOnlyShort(p *TaskPlan, s *taskState, execWait time.Duration) bool {
+	for _, t := range p.Tasks {
+		if t.MaxDelay != 0 || t.Self == "resched" || t.Self == "cancel" || t.Self == "cancelsib" {
+			return false
+		}
+	}
+	for _, o := range s.ops {
+		if o.Op == "sched" || o.Op == "cancel" {
+			return false
+		}
+	}
+	for _, e := range s.execs {
+		if !e.Ended || e.EndT-e.BeginT >= execWait/4 {
+			return false
+		}
+	}
+	return p.MTLoad == 0
 }
 
 func lastBeginBefore(execs []*tExec, seq uint64) uint64 {
@@ -474,6 +536,11 @@ func checkTasks(p *TaskPlan, rc *simkit.RunCtx) {
 				for _, o := range myOps {
 					if isSubmission(o.Op) && o.Busy && o.Inv >= lastBeginBefore(myExecs, lastSub.Inv) {
 						during = "while a previous execution of the task was still in progress"
+						if queueOnlyShort(p, s, execWait) {
+							// every start is made by the queue handler, which waits for the execution it started
+							// (none comes near the wait limit): the submission stays queued until that one is over
+							during = "during an execution the queue handler was waiting for (no schedule entries, no execution near the execution-wait limit)"
+						}
 					}
 				}
 				rc.Fail("C07.lost", "a submitted task was never executed after its last submission (submitted "+during+")",
@@ -482,6 +549,51 @@ func checkTasks(p *TaskPlan, rc *simkit.RunCtx) {
 			}
 			if ok {
 				rc.Probe("submission-executed")
+			}
+		}
+	}
+	// calm runs: nothing but schedule operations on tasks that return at once. Whatever is due is started by the
+	// queue handler one after the other; the only thing that can hold up a start is the handler waiting out the
+	// execution-wait limit for a predecessor, once per other task at most.
+	if p.Calm {
+		bound := time.Duration(len(p.Tasks))*execWait + 30*time.Second
+		for i := range p.Tasks {
+			var prev uint64
+			for _, e := range s.execs {
+				if e.Task != i {
+					continue
+				}
+				// the schedule operation in force: the last one, or any of several that overlapped at the end
+				var scheds []*tOpRec
+				for _, o := range s.ops {
+					if o.Task == i && o.Op == "sched" && o.Ret < e.BeginSeq {
+						scheds = append(scheds, o)
+					}
+				}
+				var at time.Duration
+				var gov *tOpRec
+				for _, o := range scheds {
+					superseded := false
+					for _, o2 := range scheds {
+						if o2.Inv > o.Ret {
+							superseded = true
+						}
+					}
+					if !superseded && (gov == nil || o.At > at) {
+						gov, at = o, o.At
+					}
+				}
+				_ = prev
+				prev = e.BeginSeq
+				if gov == nil {
+					continue
+				}
+				if e.BeginT > gov.At+bound {
+					rc.Fail("C07.late", "a scheduled task was started long after its scheduled time although nothing but a few momentary tasks was due",
+						fmt.Sprintf("task %d: scheduled for %v (operation at %v), started at %v, bound %v", i, gov.At, gov.T, e.BeginT, bound))
+					return
+				}
+				rc.Probe("calm-schedule-judged")
 			}
 		}
 	}
